@@ -19,9 +19,24 @@ var targetPkgs = []string{
 	modRoot + "/pkg/controller/statefulset",
 	modRoot + "/pkg/third_party/k8s",
 	modRoot + "/client/apis/apps/v1/helper",
+	modRoot + "/client/client/listers/apps/v1",
+}
+
+// defaultingPkgs are loaded as targets only for the properties that verify them (C19):
+// their field accesses would otherwise inflate every struct value.
+var defaultingPkgs = []string{
 	modRoot + "/client/apis/apps/v1",
 	modRoot + "/client/apis/apps/v1/third_party/k8s",
-	modRoot + "/client/client/listers/apps/v1",
+}
+
+func pkgsFor(shorts ...string) []string {
+	out := append([]string{}, targetPkgs...)
+	for _, s := range shorts {
+		if s == "apps" || s == "k8sdef" {
+			return append(out, defaultingPkgs...)
+		}
+	}
+	return out
 }
 
 func (e *Engine) load(repo string, verifDir string, pkgs []string) error {
@@ -71,16 +86,20 @@ func (e *Engine) load(repo string, verifDir string, pkgs []string) error {
 		}
 		e.cfiles = append(e.cfiles, cf)
 	}
-	// field-name table: every field selected in the target packages, every
-	// field named in a composite literal, every ".name" in a contract
+	// field table: every (struct type, field) selected in the target packages or
+	// named in a composite literal there; plus every ".name" in a contract (any type)
+	rec := func(t types.Type, name string) {
+		if pt, ok := t.Underlying().(*types.Pointer); ok {
+			t = pt.Elem()
+		}
+		e.typedFields[typeKey(t)+"."+name] = true
+	}
 	for _, p := range loaded {
 		for _, f := range p.Syntax {
 			ast.Inspect(f, func(n ast.Node) bool {
 				switch x := n.(type) {
 				case *ast.SelectorExpr:
 					if s := p.TypesInfo.Selections[x]; s != nil && s.Kind() == types.FieldVal {
-						e.fieldNames[x.Sel.Name] = true
-						// implicit embedded path
 						t := s.Recv()
 						for _, idx := range s.Index() {
 							if pt, ok := t.Underlying().(*types.Pointer); ok {
@@ -90,16 +109,26 @@ func (e *Engine) load(repo string, verifDir string, pkgs []string) error {
 							if !ok {
 								break
 							}
-							e.fieldNames[su.Field(idx).Name()] = true
+							rec(t, su.Field(idx).Name())
 							t = su.Field(idx).Type()
 						}
 					}
 				case *ast.CompositeLit:
-					for _, el := range x.Elts {
+					lt := p.TypesInfo.TypeOf(x)
+					if lt == nil {
+						return true
+					}
+					su, ok := lt.Underlying().(*types.Struct)
+					if !ok {
+						return true
+					}
+					for i, el := range x.Elts {
 						if kv, ok := el.(*ast.KeyValueExpr); ok {
 							if id, ok := kv.Key.(*ast.Ident); ok {
-								e.fieldNames[id.Name] = true
+								rec(lt, id.Name)
 							}
+						} else if i < su.NumFields() {
+							rec(lt, su.Field(i).Name())
 						}
 					}
 				}
